@@ -117,8 +117,50 @@ CLAIMS.update({
     ),
 })
 
+CLAIMS.update({
+    "C08": _c(
+        "Static analysis of the mesher's structure: every recursive face/edge call of the dual walk is placed on the "
+        "sub-cell lattice and must be geometrically consistent (hi = lo + 1 along t'; the four edge cells at "
+        "(p,q),(p+1,q),(p+1,q+1),(p,q+1) in the frame's (u',v') plane), frames are right-handed cyclic rotations, dc_cell "
+        "covers all 8 children / 12 faces / 6 edges, the multithreaded merge shifts leaf and branch indices by their own "
+        "prefix-sum offsets, cells are full/empty only under strict interval guards and leaf corner masks are by identity. "
+        "Manifoldness, QEF placement, collapse criteria and the generated tables are out of static reach.",
+        "static analysis: lattice-geometry consistency of the recursive dual walk + index/guard lints",
+    ),
+    "C09": _c(
+        "Static analysis: an abort (Err/None/false) originates only under is_cancelled() or propagates from a child and "
+        "turns the whole result into None; the shared-state inventory (unsafe Send/Sync impls, interior mutability, statics, "
+        "thread_local) equals the vetted list and the JIT handles have no mutating method; per-thread state comes from "
+        "map_init and results are keyed by tile/cell; merge offsets are per-task prefix sums. Interleavings themselves "
+        "are not explored.",
+        "static analysis: guard-origin, who-may-share inventory and keyed-result lints",
+    ),
+    "C17": _c(
+        "Static analysis of the scripting bindings: every operator/function string is registered to its namesake in both "
+        "operand orders with operands in source order (macro bodies and invocations), all six comparisons are registered to "
+        "the rejecting functions, the map form and the chained form of a constructor derive every field identically "
+        "(default as hint / default when absent / error), and coercion tables map array indices, names and constants to "
+        "their namesakes. The reflection-driven overload dispatch on argument types is out of static reach.",
+        "static analysis: registration-table agreement and sibling-builder agreement lint (including macro token streams)",
+    ),
+    "C18": _c(
+        "Static analysis of the view types: world_to_model is translate x rotate x scale of the view's own components, "
+        "each manipulation writes only its own fields (write-set inventory), changed flags compare old with new before "
+        "assigning, View2/View3 siblings agree modulo dimension, zoom re-centres through the full matrix, yaw wraps and "
+        "pitch clamps the whole sum, canvases adopt the image size before converting cursor positions.",
+        "static analysis: write-set, sibling-agreement and ordering lint",
+    ),
+    "C19": _c(
+        "Static analysis of the solver: only Free parameters get a gradient slot and a result, Fixed ones are constants at "
+        "their value in both evaluators, the three-per-sample packing agrees between writer lanes, reader lanes and batch "
+        "width, an all-zero residual ends the iteration before any change, and a parameter set with no free entry never "
+        "reads the empty gradient batch. Convergence and residual size are out of static reach.",
+        "static analysis: packing-table agreement and exit-ordering lint",
+    ),
+})
+
 PENDING = "check not built yet in this round (static rules planned in DESIGN.md section 3)"
-NOT_APPLICABLE = {("C%02d" % i): PENDING for i in range(1, 21)}
+NOT_APPLICABLE = {}
 
 ENGINES = [
     {"name": "astdump", "path": "tools/astdump", "serves_properties": ["C%02d" % i for i in range(1, 21)],
